@@ -180,7 +180,12 @@ structure Dom (S : Schema) (x : DNode) : Prop where
 
 /-- HYPOTHESIS of the C13 theorems about system-ordered lists and leaf-lists: `Tree.cmpInst` (the `sort` callbacks of the type
 plugins, key by key) is a strict total order on the instances of one such schema node, and instances with equal keys / values
-(`sameInst`) are indistinguishable for it. -/
+(`sameInst`) are indistinguishable for it.
+SUPERSEDED by `K13.KeyOrderOn S P` (K13Ord.lean): quantifying over ALL nodes of the right shape (`Dom`) — list instances without
+their key children included — makes this hypothesis unsatisfiable for every schema with a keyed list (Props/C13
+`keyOrder_no_keyed_list`); `KeyOrderOn` asks the same axioms of the nodes satisfying `P` only, `KeyOrder S` implies
+`KeyOrderOn S (fun _ => true)` (`K13.keyOrderOn_of_keyOrder`), and `KeyOrderOn S (K13.keyedOK S)` is proved (K13Canon.lean).  The
+`K13*.lean` files carry the lemmas of the `Lemmas13*.lean` files over to `KeyOrderOn`. -/
 structure KeyOrder (S : Schema) : Prop where
   /-- list keys are leaves (schema well-formedness) -/
   keyTerm : ∀ {sid}, S.isKey sid = true → S.isTerm sid = true
